@@ -604,13 +604,13 @@ def lower8(ctx) -> List[Ob]:
     # loop arm: counter incremented before the flag name is built and before the body is generated
     inc = [s for s in A.walk_no_nested(ast.Module(rarm.body, [])) if isinstance(s, ast.AugAssign) and A.unparse(s.target) == counter and isinstance(s.op, ast.Add)]
     key = "loop arm: level counter pushed before name and body"
-    body_calls = [c for c in A.walk_no_nested(ast.Module(rarm.body, [])) if isinstance(c, ast.Call) and isinstance(c.func, ast.Name) and c.func.id == "codegen_view"]
+    body_calls = [c for c in A.walk_no_nested(ast.Module(rarm.body, [])) if isinstance(c, ast.Call) and ((isinstance(c.func, ast.Name) and c.func.id == "codegen_view") or (isinstance(c.func, ast.Attribute) and c.func.attr in ("codegen_view", "codegen")))]
     # the push dominates the flag name; the body is never generated on a path that pushes afterwards (a body call
     # shared by all kinds sits behind the push of the loop kind, it is not dominated by it)
     inc_n = cfg.node_of(inc[0]) if inc else None
     body_after = [b for b in body_calls if inc_n is not None and cfg.node_of(b) in cfg.reachable(inc_n)]
     body_before = [b for b in body_calls if inc_n is not None and inc_n in cfg.reachable(cfg.node_of(b))]
-    if inc and cfg.dominates(inc_n, cfg.node_of(rf[0][0])) and body_after and not body_before:
+    if inc and cfg.dominates(inc_n, cfg.node_of(rf[0][0])) and (body_after or not body_calls) and not body_before:
         out.append(ok("LOWER-8", cg.qualname, key, ctx.where(cg, inc[0]), f"{counter} += 1, then the name, then the body"))
     else:
         out.append(bad("LOWER-8", cg.qualname, key, ctx.where(cg, rarm.node), f"the nesting counter {counter} is not advanced before the flag name is built: nested loops share one flag"))
